@@ -1599,6 +1599,56 @@ func (e *wireExec) sigStep(s *XStep, w *wireTok, env *envelope) {
 		o.Sig("C09", "hostile-header", w.alg, s.At%2, s.Val%6, len(acc) > 0)
 		e.conservation(acc, w, data, "hostile varsig header", desc, "cbor")
 		return
+	case "alias_header":
+		// the token's own varsig header with its algorithm and / or hash code replaced by a
+		// relative (the next curve size, the next hash size, a neighbouring code), and the whole
+		// signed part signed AFRESH by the issuer's real key (as always: over SHA-256 or whatever
+		// the key library does): what the header announces is not what was done, no decoder may
+		// accept it
+		var own []byte
+		for i := 0; i+1 < len(m.sp.Kids); i += 2 {
+			if string(m.sp.Kids[i].Data) == "h" {
+				own = m.sp.Kids[i+1].Data
+			}
+		}
+		var parts []uint64
+		for off := 0; off < len(own); {
+			v, n, verr := getUvarint(own[off:])
+			if verr != nil || n == 0 {
+				break
+			}
+			parts = append(parts, v)
+			off += n
+		}
+		if len(parts) < 3 {
+			return
+		}
+		algs := []uint64{parts[1], 0xd01200, 0xd01201, 0xd01202, 0xd0ed, 0xd0e7, 0xd01205, parts[1] + 1, parts[1] - 1, 0xed, 0xe7, 0x1200, 0x1201, 0x1202}
+		hashes := []uint64{parts[len(parts)-2], 0x12, 0x20, 0x13, 0x14, 0x15, 0x16, 0x1b, 0x00}
+		np := append([]uint64{}, parts...)
+		if s.Val < 16 {
+			// the family first: every pairing of the ECDSA curve codes with the SHA-2 sizes, and
+			// the own algorithm with each of them
+			np[1] = []uint64{0xd01200, 0xd01201, 0xd01202, parts[1]}[s.Val/4]
+			np[len(np)-2] = []uint64{0x12, 0x20, 0x13, 0x14}[s.Val%4]
+		} else {
+			np[1] = algs[s.Val%len(algs)]
+			np[len(np)-2] = hashes[(s.Val/len(algs)+s.At)%len(hashes)]
+		}
+		var vb bytes.Buffer
+		for _, v := range np {
+			putUvarint(&vb, v)
+		}
+		if bytes.Equal(vb.Bytes(), own) {
+			return
+		}
+		m.sp.MapSet("h", cbBytes(vb.Bytes()))
+		sig, serr := e.cast.ent(w.spec.iss()).priv.Sign(m.sp.Encode())
+		if serr != nil {
+			return
+		}
+		m.sig.Data = sig
+		desc = fmt.Sprintf("varsig header %x instead of %x, signed afresh by the issuer", vb.Bytes(), own)
 	case "zero_hash":
 		// content the issuer never signed (another audience) under a key-less signature that
 		// verifies against an all-zero digest (NIST-curve issuers only)
@@ -2129,6 +2179,13 @@ func (e *wireExec) byzStep(s *XStep, w *wireTok, env *envelope) {
 			mustReject = true
 		}
 		desc = fmt.Sprintf("%s out of range (%d/%d)", f, big.Major, big.Arg)
+	case "undef_did":
+		// a principal given as the text the UNDEFINED DID prints as (or a neighbour of it): no
+		// decoder may hand out a token whose principal is undefined
+		t := []string{"did:key:z", "did:key:", "did:key:z1", "did:key:Z", "did:", "did:key:z "}[s.Val%6]
+		pl.MapSet(f, cbText(t))
+		mustReject = true
+		desc = fmt.Sprintf("%s given as %q", f, t)
 	case "nonce_len":
 		n := []int{0, 1, 11}[s.Val%3]
 		pl.MapSet("nonce", cbBytes(labelNonce("short", n)))
@@ -2342,6 +2399,9 @@ func badDID(alg string, v int) string {
 		}
 		body := append(der(0x02, append([]byte{0x00}, n...)), der(0x02, exp)...)
 		raw = append([]byte{0x85, 0x24}, der(0x30, body)...)
+	case "undef-text":
+		// what the undefined DID prints as, and its neighbours
+		return []string{"did:key:z", "did:key:", "did:key:z1", "did:key:Z", "did:", "did:key:z "}[v%6]
 	case "x25519":
 		raw = append([]byte{0xec, 0x01}, junk(32)...)
 	default:
@@ -2460,7 +2520,7 @@ func (e *wireExec) hostileStep(s *XStep, w *wireTok, env *envelope) {
 			}
 		})
 	case "bad_did":
-		algs := []string{"ed25519", "p256", "p384", "p521", "secp256k1", "rsa", "x25519", "junk", "rsa-small", "rsa-huge", "rsa-e1"}
+		algs := []string{"ed25519", "p256", "p384", "p521", "secp256k1", "rsa", "x25519", "junk", "rsa-small", "rsa-huge", "rsa-e1", "undef-text", "undef-text"}
 		d := badDID(algs[s.Val%len(algs)], s.At)
 		// such an identifier is met more than once in a process: resolving it again gives the same
 		// answer (an error, or the same key), never a panic
